@@ -45,9 +45,7 @@ PROPERTY = 'C19'
 ME = 'me0'
 USERS = ['me0', 'u1', 'u2']
 ROOMS = ['r0', 'r1']
-U32, U64 = 2 ** 32 - 1, 2 ** 64 - 1
 STATS = ('avg_speed', 'uploads', 'shared_file_count', 'shared_folder_count')
-STAT_MAX = {'avg_speed': U32, 'uploads': U64, 'shared_file_count': U32, 'shared_folder_count': U32}
 FLAG_BITS = 6
 RECORDED = (RoomListEvent, RoomJoinedEvent, RoomLeftEvent, RoomTickersEvent, RoomTickerAddedEvent,
             RoomTickerRemovedEvent, RoomMembershipGrantedEvent, RoomMembershipRevokedEvent, RoomMembersEvent,
@@ -345,7 +343,7 @@ def build(c, init='any', umode='choose', rmode='choose'):
         a = st['users'][u]
         a.update(exists=True, status=s, privileged=p)
         for f in STATS:
-            v = c.fresh_int(f'{u}_{f}', 0, STAT_MAX[f])
+            v = c.fresh_int(f'{u}_{f}')      # write-only for the handlers: unconstrained
             setattr(obj, f, v)
             a[f] = v
         um._users[u] = obj
@@ -409,8 +407,14 @@ ALL_KINDS = ROOM_USER_KINDS + ROOM_KINDS + USER_KINDS + LIST_KINDS + ('Privilege
                                                                       'JoinRoom', 'RoomList')
 
 
+def num(c, name):
+    """a number the code only stores and hands on (stats, counts, ids): an unconstrained Int - a
+    superset of the uint32 / uint64 wire range, and two solver assertions cheaper per variable"""
+    return c.fresh_int(name)
+
+
 def _stats(c, p):
-    return UserStats(**{f: c.fresh_int(f'{p}{f}', 0, STAT_MAX[f]) for f in STATS})
+    return UserStats(**{f: num(c, f'{p}{f}') for f in STATS})
 
 
 def _mask(m):
@@ -433,7 +437,7 @@ def make_msg(c, sp, i):
     elif k == 'UserJoinedRoom':
         md['status'], md['stats'] = c.fresh_int(p + 'status', 0, 2), _stats(c, p)
         msg = M.UserJoinedRoom.Response(room=rn, username=un, status=md['status'], user_stats=md['stats'],
-                                        slots_free=c.fresh_int(p + 'slots_free', 0, U32), country_code='DE')
+                                        slots_free=num(c, p + 'slots_free'), country_code='DE')
     elif k in ('UserLeftRoom', 'RoomTickerRemoved', 'PrivateRoomGrantMembership', 'PrivateRoomRevokeMembership',
                'PrivateRoomGrantOperator', 'PrivateRoomRevokeOperator'):
         msg = getattr(M, k).Response(room=rn, username=un)
@@ -445,7 +449,7 @@ def make_msg(c, sp, i):
         msg = getattr(M, k).Response(room=rn, username=un, message=md['text'])
     elif k == 'PrivateChatMessage':
         md['text'] = tok(c, p + 'text')
-        md['chat_id'], md['timestamp'] = c.fresh_int(p + 'chat_id', 0, U32), c.fresh_int(p + 'timestamp', 0, U32)
+        md['chat_id'], md['timestamp'] = num(c, p + 'chat_id'), num(c, p + 'timestamp')
         md['is_direct'] = c.fresh_bool(p + 'is_direct')
         msg = M.PrivateChatMessage.Response(chat_id=md['chat_id'], timestamp=md['timestamp'], username=un,
                                             message=md['text'], is_direct=md['is_direct'])
@@ -466,7 +470,7 @@ def make_msg(c, sp, i):
     elif k == 'AddPrivilegedUser':
         msg = M.AddPrivilegedUser.Response(username=un)
     elif k == 'CheckPrivileges':
-        md['time_left'] = c.fresh_int(p + 'time_left', 0, U32)
+        md['time_left'] = num(c, p + 'time_left')
         msg = M.CheckPrivileges.Response(time_left=md['time_left'])
     elif k in ('PrivateRoomMembers', 'PrivateRoomOperators'):
         md['listed'] = _mask(sp['m'])
@@ -491,7 +495,7 @@ def make_msg(c, sp, i):
         md['operators'] = None if sp.get('ops', -1) < 0 else _mask(sp['ops'])
         msg = M.JoinRoom.Response(
             room=rn, users=list(md['listed']), users_status=list(md['statuses']), users_stats=list(md['stats']),
-            users_slots_free=[c.fresh_int(f'{p}{u}_slots_free', 0, U32) for u in md['listed']],
+            users_slots_free=[num(c, f'{p}{u}_slots_free') for u in md['listed']],
             users_countries=['DE'] * len(md['listed']), owner=md['owner'],
             operators=None if md['operators'] is None else list(md['operators']))
     elif k == 'RoomList':
@@ -501,9 +505,9 @@ def make_msg(c, sp, i):
         own = [r for r in ROOMS if md['cats'][r] == 'owned']
         mem = [r for r in ROOMS if md['cats'][r] == 'member']
         msg = M.RoomList.Response(
-            rooms=pub, rooms_user_count=[c.fresh_int(f'{p}{r}_count', 0, U32) for r in pub],
-            rooms_private_owned=own, rooms_private_owned_user_count=[c.fresh_int(f'{p}{r}_count', 0, U32) for r in own],
-            rooms_private=mem, rooms_private_user_count=[c.fresh_int(f'{p}{r}_count', 0, U32) for r in mem],
+            rooms=pub, rooms_user_count=[num(c, f'{p}{r}_count') for r in pub],
+            rooms_private_owned=own, rooms_private_owned_user_count=[num(c, f'{p}{r}_count') for r in own],
+            rooms_private=mem, rooms_private_user_count=[num(c, f'{p}{r}_count') for r in mem],
             rooms_private_operated=[r for r in ROOMS if md['oper'][r]])
     else:
         raise HarnessError(f'unknown kind {k}')
@@ -611,11 +615,16 @@ def compare(c, env, exp, md):
     kind, who = md['kind'], md['who']
     info = {'handler_exception': repr(env.excs[0])} if env.excs else None
 
+    failed = []
+
     def chk(cond, label, sig, extra=None, got=None, want=None):
         cond = plain(cond)
         if not c.symbolic and not bool(cond):
             c.note('MISMATCH', label, sig, 'got', _show(got), 'expected', _show(want))
-        return c.check(cond, label, sig=sig, info=extra if extra is not None else info)
+        ok = c.check(cond, label, sig=sig, info=extra if extra is not None else info)
+        if not ok:
+            failed.append(label)
+        return ok
 
     # ---- rooms ---------------------------------------------------------------------------
     for r in ROOMS:
@@ -681,6 +690,7 @@ def compare(c, env, exp, md):
     chk(eqv(env.um._session.privileges_time_left, exp['time_left']), 'own_privileges', [kind, who])
 
     check_events(c, env, md, chk)
+    return not failed
 
 
 def _show(v):
@@ -856,7 +866,11 @@ def h_run(c, steps, init='any', umode='choose', rmode='choose'):
             c.reach('kind:' + md['kind'])
             for e in env.excs:
                 c.note('handler exception', md['kind'], repr(e))
-            compare(c, env, exp, md)
+            if not compare(c, env, exp, md):
+                # the replica has diverged from the reference: what later notifications do to it would only
+                # repeat this finding under their own signature
+                c.note('scenario stopped after the first refuted step', i)
+                break
 
 
 # ------------------------------------------------------------------------------------------
@@ -899,10 +913,18 @@ def _step_variants(tier):
                     if (o, ops) != (0, -1):
                         out.append({'k': 'JoinRoom', 'r': r, 'm': 2 if r == 0 else 1, 'o': o, 'ops': ops})
         else:
+            # listed users, owner and operator list are written to different fields: every listed subset with 6
+            # owner/operator shapes, every owner x operator-list shape with 2 listed subsets
+            shapes = set()
             for m in range(8):
-                for o in range(4):
-                    for ops in range(-1, 8):
-                        out.append({'k': 'JoinRoom', 'r': r, 'm': m, 'o': o, 'ops': ops})
+                for o, ops in ((0, -1), (0, 0), (1, 5), (2, 2), (3, 7), (2, -1)):
+                    shapes.add((m, o, ops))
+            for o in range(4):
+                for ops in range(-1, 8):
+                    shapes.add((2 if r == 0 else 1, o, ops))
+                    shapes.add((5, o, ops))
+            for m, o, ops in sorted(shapes):
+                out.append({'k': 'JoinRoom', 'r': r, 'm': m, 'o': o, 'ops': ops})
             for m in (3, 5, 6, 7):
                 out.append({'k': 'JoinRoom', 'r': r, 'm': m, 'o': 2, 'ops': 3, 'st': 'free'})
     cats = ('absent', 'public', 'owned', 'member')
@@ -950,7 +972,7 @@ SCENARIOS = [
 
 
 def _pairs():
-    """thorough: every ordered pair over a reduced alphabet (one room, users me/u1) from the constructor state"""
+    """thorough: every ordered pair over a reduced alphabet (36 letters: one room, users me/u1) from the constructor state"""
     alpha = []
     for k in ROOM_USER_KINDS:
         for u in (0, 1):
@@ -975,7 +997,9 @@ def _jobs(tier):
     out = []
     for sp in _step_variants(tier):
         k = sp['k']
-        if not q:
+        if not q and k == 'JoinRoom' and (sp['o'], sp['ops']) != (0, -1):
+            umodes = ['all', 'me', 'none']    # (every subset of pre-existing users only with the plain shape)
+        elif not q:
             umodes = ['choose']
         elif k in ('RoomList', 'PrivilegedUsers') + LIST_KINDS:
             umodes = ['all', 'none']
@@ -1046,21 +1070,22 @@ META = {
     'data_variables': [
         'per room x user: in user list (multiplicity 0/1), member, operator, has ticker (Bool) and ticker text',
         'per room: joined, private (Bool), owner (Int over none/3 names)',
-        'per user: status (-1..2), privileged (Bool), avg_speed / shared files / folders (uint32), uploads (uint64)',
+        'per user: status (-1..2), privileged (Bool), avg_speed / uploads / shared files / folders (unconstrained Int, a superset of the wire range)',
         'privileged-user set membership (Bool x 3)', 'blocking flags per user (BitVec 6)',
-        'message values: status 0..2, stats, slots_free, user counts, privileged, texts, chat id, timestamp, '
-        'is_direct, time_left'],
+        'message values: status 0..2, privileged, is_direct (Bool), text tokens; stats, slots_free, user counts, chat id, '
+        'timestamp, time_left (unconstrained Int)'],
     'discriminants': [
-        'message kind (28 handlers)', 'announced room (2) and user (3)', 'which rooms / users exist in the pre-state',
+        'message kind (27 handlers)', 'announced room (2) and user (3)', 'which rooms / users exist in the pre-state',
         'shape of list-valued messages: listed subset of the 3 users, owner, operator list, per-room category in '
         'RoomList (absent/public/owned/member x operated)', 'sender present in / absent from the block list',
         'scenario (sequence of kinds) for the runs from the constructor state'],
     'bounds': {
         'quick': {'rooms': 2, 'users': 3, 'inductive_step': 'every kind x room x user from an arbitrary state; users '
-                  'pre-existing: all / only self', 'scenarios': f'{len(SCENARIOS)} sequences of 1-3 notifications'},
-        'thorough': {'rooms': 2, 'users': 3, 'inductive_step': 'as quick with every subset of pre-existing users, all '
-                     'JoinRoom operator shapes, independent statuses, all 64 RoomList shapes',
-                     'scenarios': 'the quick ones + every ordered pair over a 35-letter alphabet'}},
+                  'pre-existing: all / only self / none', 'scenarios': f'{len(SCENARIOS)} sequences of 1-3 notifications'},
+        'thorough': {'rooms': 2, 'users': 3, 'inductive_step': 'as quick with every subset of pre-existing users (JoinRoom: for the 8 '
+                     'plain shapes, all/self/none for the others), 108 JoinRoom shapes per room (+ independent statuses), '
+                     'all 64 RoomList shapes',
+                     'scenarios': 'the quick ones + every ordered pair over a 36-letter alphabet'}},
     'outside': [
         'order of Room.users and of tickers (membership and multiplicity are checked, order is not)',
         'users nobody references (weakly held: their view is dropped by design; the reference restarts them)',
